@@ -120,6 +120,24 @@ def run_bnd(W, cfg):
     W.ob('slice_offset', list(off), [want[0] + hh // 2 - shp[0] // 2, want[2] + ww // 2 - shp[1] // 2])
     ext = X.array_extent((hh, ww), off, parent_shape=shp)
     W.ob('array_extent(slice shape, slice offset, parent) = the box', list(ext), [want[0], want[1] - 1, want[2], want[3] - 1])
+    # a threshold: only samples strictly above it count, on both axes alike; values below it (weak, zero or negative) do not
+    if len(sup) >= 2:
+        t = W.real('thr', pos=True)
+        y = W.zeros(shp)
+        strong = [p_ for k, p_ in enumerate(sup) if k % 2 == 0]
+        for k, (r, c) in enumerate(sup):
+            y[r, c] = (t + W.real(f's_{r}_{c}', pos=True)) if k % 2 == 0 else t * W.real(f'u_{r}_{c}', pos=True, hi=1)
+        for (r, c) in cells:
+            if (r, c) not in sup and (r + c) % 2:
+                y[r, c] = -W.real(f'n_{r}_{c}', pos=True)
+        sb = [min(r for r, c in strong), max(r for r, c in strong), min(c for r, c in strong), max(c for r, c in strong)]
+        W.ob('boundary(x, threshold) = bounding box of the samples above the threshold', list(lt.boundary(y, threshold=t)), sb)
+        z = W.zeros(shp)
+        for (r, c) in cells:
+            z[r, c] = y[r, c] if (r, c) in strong else (-W.real(f'm_{r}_{c}', pos=True) if (r + c) % 2 else 0)
+        W.ob('boundary of data with negative samples (default threshold 0) = bounding box of the positive ones', list(lt.boundary(z)), sb)
+        st = H.boundary_slice(y, threshold=t)
+        W.ob('boundary_slice with a threshold', [st[0].start, st[0].stop, st[1].start, st[1].stop], [sb[0], sb[1] + 1, sb[2], sb[3] + 1])
     # centroid = sum(i w)/sum(w)
     cr, cc = lt.centroid(x)
     tot = W.sum(x[r, c] for r, c in sup)
